@@ -558,6 +558,15 @@ get_typelib_dependencies_transitive (GIRepository *repository,
 
       dependency = immediate_dependencies[i];
 
+      /* Already walked (a namespace reachable along two paths, or a cycle
+       * among lazily loaded namespaces): do not walk it again. */
+      if (g_hash_table_contains (transitive_dependencies, dependency))
+        {
+          g_free (dependency);
+          immediate_dependencies[i] = NULL;
+          continue;
+        }
+
       /* Steal from the strv. */
       g_hash_table_add (transitive_dependencies, dependency);
       immediate_dependencies[i] = NULL;
